@@ -312,7 +312,13 @@ func (m *Muxer) WriteData(d *MuxerData) (int, error) {
 			payloadStart = false
 		} else {
 			// Adaptation field only packet: the continuity counter is not incremented
-			pkt.Header.ContinuityCounter = uint8(ctx.cc.get()) & 0xf
+			// ... it carries the value of the previous packet of the PID, i.e. the one before the value of the first payload packet
+			// when nothing has been written on the PID yet
+			if cc := ctx.cc.get(); cc > 0xf {
+				pkt.Header.ContinuityCounter = 0xf
+			} else {
+				pkt.Header.ContinuityCounter = uint8(cc)
+			}
 			n, err = m.writePacket(&pkt)
 			if err != nil {
 				return bytesWritten, err
